@@ -94,14 +94,19 @@ def decodeLossy (bs : Bytes) : List Nat := decodeAux .idle bs
 
 namespace Code
 
-/-- The `while i < class_end` loop over the class body `pattern_chars[start_idx..class_end]`:
-    `x-y` is a range only if `y` is still inside the body (`i + 2 < class_end`). -/
-def classMatch (c : Nat) : List Nat → Bool
-  | [] => false
-  | x :: rest@(d :: hi :: rest') =>
-    if d = 45 then (if x ≤ c ∧ c ≤ hi then true else classMatch c rest')
-    else (if c = x then true else classMatch c rest)
-  | x :: rest => if c = x then true else classMatch c rest
+/-- The `while i < class_end` loop over the class body `pattern_chars[start_idx..class_end]`
+    (the list is `pattern_chars[i..class_end]`; the first argument counts positions still to be
+    skipped after a range, `i += 3`).  `x-y` is a range only if `y` is still inside the body
+    (`i + 2 < class_end`). -/
+def classMatchAux (c : Nat) : Nat → List Nat → Bool
+  | _, [] => false
+  | skip + 1, _ :: rest => classMatchAux c skip rest
+  | 0, x :: rest =>
+    if 2 ≤ rest.length ∧ rest.head? = some 45 then          -- `i + 2 < class_end && pattern_chars[i+1] == '-'`
+      (if x ≤ c ∧ c ≤ rest.getD 1 0 then true else classMatchAux c 2 rest)
+    else (if c = x then true else classMatchAux c 0 rest)
+
+def classMatch (c : Nat) (body : List Nat) : Bool := classMatchAux c 0 body
 
 /-- `pattern_chars[p_idx..].iter().position(|&c| c == ']')`, as (chars before, chars after). -/
 def splitClose : List Nat → Option (List Nat × List Nat)
